@@ -99,6 +99,6 @@ def c04(ctx: Ctx):
     ctx.extra.update(cases=ncases, option_sets=nsets, locations=len(locations), rule_kind_pairs=len(rules), kinds=len(kinds))
     ctx.rule = ("cases = every closed state of spec/MC_C04.tla within the bounds of MC_C04_%s.cfg: a location path through the "
                 "containment graph x (conforming variant | one violation of one rule of the kind found there | reference form); "
-                "each document is loaded and validated under all %d option sets; evaluations counts (document, option set) "
+                "each document is loaded and validated under all %d ordered option sequences (2^7 subsets + sequences with the Enable*/reset options); evaluations counts (document, option sequence) "
                 "verdicts; non-trivial = distinct documents other than the minimal conforming one of a location" % (ctx.tier, nsets))
     ctx.validate("Trace_C04", "Trace_C04.cfg", logp, chunk_lines=max(200, min(2500, ncases // 16 + 1)), timeout=1500)
